@@ -5,4 +5,4 @@ From Coq Require Import NArith ZArith.
 Require Import ExtrOcamlBasic.
 Require Import XV.PatDefs.
 Extraction "extracted/pat_model.ml"
-  c_match c_select c_guard c_no_left_of_any c_shape wf_doc N.succ Z.opp.
+  c_match c_select c_shape wf_doc N.succ Z.opp.
